@@ -195,6 +195,7 @@ def run(ctx):
     run_class_names(ctx)
     run_dependants(ctx)
     helper_mock_names_probe(ctx)
+    shared_object_probe(ctx)
 
 
 def helper_mock_names_probe(ctx):
@@ -307,6 +308,38 @@ def run_class_names(ctx):
 
 def _run_int(self) -> int:
     return 1
+
+
+def shared_object_probe(ctx):
+    """a short name that fits two NAMES is ambiguous — also when the two names hold one shared task object (the same pipeline with equal
+    parameters under two sibling namespaces): `chain['a']` raises, `'a' in chain` is False, the full names resolve"""
+    from tcv import gen, pipeline as pl
+    root = ctx.tmpdir() / 'shared-object'
+    spec = {'classes': {'K0': {'name': 'a', 'group': '', 'params': [{'name': 'x', 'default': 1}], 'inputs': [], 'kind': 'json', 'run_args': []}},
+            'files': {'p.json': {'tasks': ['K0']}, 'main.json': {'uses': ['@cfg/p.json as n1', '@cfg/p.json as n2']}}, 'main': 'main.json',
+            'module': gen.fresh_modname()}
+    b = pl.materialize(spec, root, modname=spec['module'])
+    b.module()
+    chain, err = pl.build(b, root / 'data')
+    case = {'probe': 'one shared object under two names', 'names': ['n1::a', 'n2::a'], 'q': 'a'}
+    ctx.case(case); ctx.count('shared-object-probe')
+    if chain is None:
+        ctx.notes['shared-object-probe'] = f'not built: {err}'; b.cleanup_module(); return
+    shared = chain.tasks['n1::a'] is chain.tasks['n2::a']
+    for how in ('getitem', 'in', 'get', 'force'):
+        try:
+            if how == 'in':
+                r = 'a' in chain
+                if r:
+                    ctx.fail('`in` disagrees with name resolution', case, {'in': True, 'shared_object': shared})
+                continue
+            r = chain['a'] if how == 'getitem' else (chain.get('a') if how == 'get' else chain.force('a'))
+            ctx.fail('an ambiguous short name was resolved (no error)', case, {'how': how, 'shared_object': shared})
+        except (KeyError, ValueError):
+            pass
+    if chain['n1::a'] is not chain.tasks['n1::a'] or chain['n2::a'] is not chain.tasks['n2::a']:
+        ctx.fail('a full name does not resolve to its task', case, {})
+    b.cleanup_module()
 
 
 def run_dependants(ctx):
